@@ -242,6 +242,12 @@ int main(int argc, char **argv)
 				LIB(lha_reader_set_dir_policy(r, pol(op + 1)));
 				printf("{\"e\":\"SetPolicy\",\"p\":\"%s\"", op + 1); tail(r);
 				break;
+			case 'Z': {
+				/* walk to the end of the archive without logging each entry (archives of 10^5 members); Zc checks each member */
+				unsigned long cnt = 0; LHAFileHeader *hh; int chk = op[1] == 'c';
+				for (;;) { LIB(hh = lha_reader_next_file(r)); if (!hh) break; cnt++; if (chk) { LIB(lha_reader_check(r, NULL, NULL)); } }
+				printf("{\"e\":\"Drain\",\"n\":%lu,\"live\":%ld,\"peak\":%ld}\n", cnt, verif_live_bytes, verif_peak_bytes);
+				break; }
 			case 'Q':
 				freed = 1;
 				break;
